@@ -18,6 +18,8 @@ func checkC02(r *Run) {
 	ruleElemAgreement(r, p)
 	ruleFloatRendering(r, p)
 	ruleRawCBORAlphabet(r, p)
+	ruleNetText(r, p)
+	ruleA4Confine(r, p)
 	ruleA4JSON(r, p) // strings decode back only if every escape denotes the character it replaces
 	if r.Tier == "thorough" {
 		if p32 := r.Use("J32"); p32 != nil {
